@@ -205,7 +205,7 @@ PROPS = {
                    "(find/filter/count chains) handled by bounded Kani harnesses.",
         verus=[U("c13_named_iter", ["C13.V.NamedStrategyIter.exact_size", "C13.V.NamedStrategyIter.kth_block"]),
                U("c18_truncate_sums_to_one", ["C18.V.truncate.sums_to_one (the named view of a truncated profile still sums to one)"]),
-               U("c18_truncate_block", ["C18.V.truncate.rescale"]),
+               U("c18_truncate_block", ["C18.V.truncate.rescale"]), U("c18_truncate_whole", ["C18.V.truncate.whole"]),
                U("c14_normalise", ["C14.V.normalise.weight_over_total (importing the view back yields the profile)"]),
                U("c14_hash_validate", ["C14.V.hash_import.dense_index (the importer assigns dense slots in the order the named view lists them)", "C14.V.hash_import.stores_weight"])],
         kani_functions=["src/lib.rs :: impl Strategies / fn as_named", "src/lib.rs :: impl Iterator for NamedStrategyActionIter / fn next, size_hint"],
@@ -222,6 +222,7 @@ PROPS = {
         level_note="The Filter/sum statement computing the divisor is abstracted in Verus (value arbitrary); that it is the sum "
                    "of survivors is only checked at the bounded level. Idempotence / sum-to-one up to rounding not decided.",
         verus=[U("c18_truncate_block", ["C18.V.truncate.rescale"]),
+               U("c18_truncate_whole", ["C18.V.truncate.whole (the method is its per-infoset loops applied once to the profile handed in: no stale guard, no early exit)"]),
                U("c18_truncate_sums_to_one", ["C18.V.truncate.sums_to_one", "C18.V.truncate.flat_infoset_unchanged"]),
                U("split_by", ["V.SplitsByMut.next.partition"])],
         kani_functions=["src/lib.rs :: impl Strategies / fn truncate"],
